@@ -86,7 +86,7 @@ def run(ctx):
     prog = mirq.Program(ctx.facts.mir())
     syn = Syn(ctx.facts.syn())
     ctx.not_decided += ["that API iterators return exactly the index content (FromHandles skips unresolvable handles)", "content of the position index", "chronological order after protect_text (appends an existing handle)"]
-    ctx.assumptions += ["all mutation of stores goes through StoreFor::insert/remove and the callbacks (established by C01.OWN and the pub(crate) visibility of the fields)"]
+    ctx.assumptions += ["all mutation of stores goes through StoreFor::insert/remove and the callbacks (established in-crate by C01.OWN; the index fields are private - witness W1 - but the low-level accessors StoreFor::store_mut / idmap_mut are public trait methods: code outside the crate that uses them directly is outside the operations this property quantifies over)"]
 
     sorted_rule(ctx, syn)
     row_rule(ctx, syn)
